@@ -20,6 +20,10 @@ CLAIMS = {
          "Decides structural necessary conditions for ALL histories and crash points within the property's crash model: (R1) every mutating operation of the embedded driver issues its writes to the mutually-constrained key families (records v,e; adjacency s,d; label index i,t) inside one BulkWrite/Update callback; (R2) every in-memory map/slice that a method updates together with a persisted key family is rebuilt from that family by every constructor (restart equivalence of the index-field registry); (R3) AddGraph registers the label-index fields before writing the graph key. Does not decide equality of the observable graph across reopen, nor atomicity inside a driver's transaction (C10).",
          "Trusted: each top-level KVInterface write and each Update/BulkWrite callback is atomic (the property's stated crash model); go/types, go/cfg.",
          "DESIGN.md §4 C04"),
+ "C16": ("key-codec agreement + separator-obligation analysis (validator reject tables from constant arguments, must-dataflow domination) over go/types AST and go/cfg",
+         "Decides structural necessary conditions for ALL strings: (K1) every key builder/parser pair of kvgraph and kvindex agrees component-wise; (K2) every client string (gid, from, to, label, graph name) that a write path of the embedded driver places into a separator-joined key is, on every path to the store write, checked by a validator that rejects the separator byte; (K3) client strings used as non-trailing components of '.'-joined index field names are validated free of '.'; (K4) variable-length byte components followed by other components are fixed-width or separator-free. Does not decide round-trips of property values, unicode, or job directory names.",
+         "Trusted: go/types, go/cfg; a validator that calls strings.Contains*/Index* with the separator on a field is assumed to reject on a match.",
+         "DESIGN.md §4 C16"),
 }
 
 PENDING_REASON = "check not built yet in this round; see DESIGN.md §4 for the structural clause planned (static analysis)"
